@@ -131,23 +131,22 @@ theorem C11_malformed_number_located (pre post : List CEvent) (t : Tag) (attrs :
       have := (List.all_eq_true.mp hall) a ha
       rw [hv] at this; cases this
     simp only [handlerOk, this, Bool.false_and]
-  have hn : (crun CSt.init pre).st.n = pre.length := by
-    rw [crun_st, run_n, absEvents_length]; simp [CSt.init, St.init]
-  have hstep : (cstep (crun CSt.init pre) (.start t attrs)).st.err = some (pre.length, .handler) := by
-    simp only [cstep, toAbs, hrun, hh]
-    rw [← hn]
-    exact step_handler_fail _ t _ h hclean hrun
-  have herr : (crun CSt.init (pre ++ .start t attrs :: post)).st.err = some (pre.length, .handler) := by
-    rw [crun_append, crun_cons, crun_st]
-    exact run_err_preserved _ _ _ hstep
-  refine ⟨herr, ?_⟩
-  have hst : (crun CSt.init (pre ++ .start t attrs :: post)).st.state = .error_ := by
-    have h1 := crun_st (pre ++ .start t attrs :: post) CSt.init
-    have h2 := run_errImplies (absEvents CSt.init (pre ++ .start t attrs :: post)) St.init (fun h0 => by cases h0)
-    rw [h1] at herr ⊢
-    have herr' : (run St.init (absEvents CSt.init (pre ++ .start t attrs :: post))).err = some (pre.length, .handler) := herr
-    exact h2 (by rw [herr']; rfl)
-  simp [outcome, hst, herr]
+  exact handler_fail_located pre post t attrs h hclean hrun hh
+
+/-- a `<point>` needs an id: after any prefix without recorded error, a `<point>` start tag (directly under
+    `<points-observations>` or inside `<coordinates>`: every handler that runs `process_point`) with compared attribute names
+    and no non-blank `id` is refused with a located error `handler` at that element — whatever id earlier points had.
+    (Before fix c9d862c the member `pp_id` kept the id of the previous point, `varInit .point_ "pp_id"` was `.ppId`, and the
+    `<point>` was accepted, overwriting the previous point: corpus/C11/point-without-id-reuses-previous.gkf.) -/
+theorem C11_point_requires_id (pre post : List CEvent) (t : Tag) (attrs : List CAttr) (h : Handler)
+    (hclean : (crun CSt.init pre).st.err = none)
+    (hrun : start (crun CSt.init pre).st.state t = .run h)
+    (hpoint : valueHandler h = .point_)
+    (hnames : ∀ a ∈ attrs, a.name ∈ attrNames .point_)
+    (hid : ∀ a ∈ attrs, a.name = "id" → normId a.val = []) :
+    (crun CSt.init (pre ++ .start t attrs :: post)).st.err = some (pre.length, .handler) ∧
+    outcome (crun CSt.init (pre ++ .start t attrs :: post)).st = .refused (some (pre.length, .handler)) :=
+  handler_fail_located pre post t attrs h hclean hrun (by rw [hpoint]; exact point_without_id _ attrs hnames hid)
 
 /-! ### non-vacuity -/
 
@@ -171,6 +170,16 @@ example :
 example : (crun CSt.init (exEvs.take 8)).st.err = none ∧
     start (crun CSt.init (exEvs.take 8)).st.state .distance = .run .distance_ ∧ valueHandler .distance_ = .distance_ ∧
     "val" ∈ strictAttrs .distance_ ∧ docCheck .distance_ "val" = some dblReq ∧ entryOk dblReq "1e".toList = false := by decide +kernel
+
+/-- `C11_point_requires_id`: the regression input (a second `<point x y adj>` without id after `<point id="A" …>`) is refused at
+    that element, also inside `<coordinates>`; both handlers run `process_point` -/
+example :
+    let pre : List CEvent := exEvs.take 7
+    (crun CSt.init pre).st.err = none ∧ (crun CSt.init pre).ctx.ppId = "A".toList ∧
+    start (crun CSt.init pre).st.state .point_ = .run .point_ ∧ valueHandler .point_ = .point_ ∧
+    valueHandler .coords_point_ = .point_ ∧
+    (crun CSt.init (pre ++ [.start .point_ [c "x" "5", c "y" "6", c "adj" "xy"], .stop true])).st.err = some (7, .handler) ∧
+    (crun CSt.init (exEvs.take 20 ++ [.start .point_ [c "z" "5"]])).st.err = some (20, .handler) := by decide +kernel
 
 /-- conditions that are not about one literal: a `<distance>` without `from` outside `<obs from=..>`, `x` without `y`,
     a non-positive distance, `from = fs` (ids compared after blank normalisation), `band ≥ dim`, `dim` ≠ number of observations,
